@@ -139,6 +139,9 @@ struct Ledger {
     /// issued minus resolved per side (for TooManyPending truthfulness)
     unresolved: [i32; 2],
     classes: Vec<String>,
+    /// A listener.accept() on this side was abandoned by the driver's virtual time bound: like a
+    /// cancelled accept it may already have accepted a request without a recorded decision.
+    accept_abandoned: [bool; 2],
 }
 
 type Pair = (chmux::Sender, chmux::Receiver);
@@ -544,7 +547,7 @@ pub async fn execute(case: &Case) -> Run {
                     Ok(Cancelled::Done(Err(ListenerError::LocalPortsExhausted))) => {}
                     Ok(Cancelled::Done(Err(e))) => run.fails.push(("C10/listener-error".into(), format!("accept failed on a healthy connection: {e}"))),
                     Ok(Cancelled::Dropped) => ledger.lock().unwrap().classes.push("accept-cancelled".into()),
-                    Err(()) => {}
+                    Err(()) => ledger.lock().unwrap().accept_abandoned[s] = true,
                 }
             }
             Op::AnswerHeld { side, idx, accept } => {
@@ -790,8 +793,8 @@ pub async fn execute(case: &Case) -> Run {
             Outcome1::Ok => {
                 // A listener.accept() future dropped after it had accepted the request leaves an
                 // accepted request without a recorded decision.
-                let cancelled_accept_possible =
-                    case.ops.iter().any(|o| matches!(o, Op::Accept { side: s2, cancel: Some(_) } if *s2 == 1 - *side));
+                let cancelled_accept_possible = l.accept_abandoned[1 - *side as usize]
+                    || case.ops.iter().any(|o| matches!(o, Op::Accept { side: s2, cancel: Some(_) } if *s2 == 1 - *side));
                 if !accepted && !cancelled_accept_possible && !maybe_accepted {
                     run.fails.push(("C10/ok-without-accept".into(), format!("request {id} resolved Ok but the listener decided {decs:?}")));
                 }
@@ -879,7 +882,7 @@ pub fn main(tier: Tier, seed: u64) -> Report {
     if !regress.is_empty() {
         runner::run_cases(&mut rep, "regress", regress, run_case);
     }
-    runner::run_generated(&mut rep, "gen", tier.pick(6000, 200_000), || strategy(tier), run_case);
+    runner::run_generated(&mut rep, "gen", tier.pick(60_000, 200_000), || strategy(tier), run_case);
     rep
 }
 
